@@ -64,8 +64,13 @@ func (bf *BanFile) Add(ip string, until *time.Time) error {
 		return fmt.Errorf("marshal yaml: %v", err)
 	}
 
-	err = os.WriteFile(filepath.Join(bf.filePath), out, 0644)
-	if err != nil {
+	// Write the new list to a temporary file and rename it into place, so that a crash never leaves
+	// a truncated or half-written ban list behind.
+	tempFilePath := filepath.Join(bf.filePath) + ".tmp"
+	if err := os.WriteFile(tempFilePath, out, 0644); err != nil {
+		return fmt.Errorf("write file: %v", err)
+	}
+	if err := os.Rename(tempFilePath, filepath.Join(bf.filePath)); err != nil {
 		return fmt.Errorf("write file: %v", err)
 	}
 
